@@ -488,11 +488,11 @@ func I6b(rc *RC) {
 	}
 	i := idx[1]
 	rep := map[string]string{
-		"$r.track[" + i + "] = ($r.track[" + i + "] - 1)":                                           "$r.track[" + i + "] = ($r.track[" + i + "] + 1)",
-		"if (0 > $r.track[" + i + "])":                                                               "if ($r.shape[" + i + "] == $r.track[" + i + "])",
-		"$r.track[" + i + "] = ($r.shape[" + i + "] - 1)":                                            "$r.track[" + i + "] = 0",
-		"$r.nextIndex = ($r.nextIndex + ($r.strides[" + i + "] * ($r.shape[" + i + "] - 1)))":        "$r.nextIndex = ($r.nextIndex - ($r.strides[" + i + "] * ($r.shape[" + i + "] - 1)))",
-		"$r.nextIndex = ($r.nextIndex - $r.strides[" + i + "])":                                      "$r.nextIndex = ($r.strides[" + i + "] + $r.nextIndex)",
+		"$r.track[" + i + "] = ($r.track[" + i + "] - 1)":                                     "$r.track[" + i + "] = ($r.track[" + i + "] + 1)",
+		"if (0 > $r.track[" + i + "])":                                                        "if ($r.shape[" + i + "] == $r.track[" + i + "])",
+		"$r.track[" + i + "] = ($r.shape[" + i + "] - 1)":                                     "$r.track[" + i + "] = 0",
+		"$r.nextIndex = ($r.nextIndex + ($r.strides[" + i + "] * ($r.shape[" + i + "] - 1)))": "$r.nextIndex = ($r.nextIndex - ($r.strides[" + i + "] * ($r.shape[" + i + "] - 1)))",
+		"$r.nextIndex = ($r.nextIndex - $r.strides[" + i + "])":                               "$r.nextIndex = ($r.strides[" + i + "] + $r.nextIndex)",
 	}
 	var lb []string
 	hits := 0
@@ -879,7 +879,7 @@ func I3m(rc *RC) {
 // the flag BEFORE it calls Reset: in the other order the iterator is positioned for the old
 // direction and walks off its end at the first step.
 func I14(rc *RC) {
-	rc.S.Declare("I14", "direction before rewind: in every iterator method that assigns the reverse flag and calls Reset on the same receiver, the assignment precedes the call on every path", 2)
+	rc.S.Declare("I14", "direction before rewind: in every iterator method that assigns the reverse flag and calls Reset on the same receiver, the assignment precedes the call on every path, and no path writes the flag without rewinding", 2)
 	for _, fi := range rc.P.SortedFuncs() {
 		if fi.Pkg != rc.P.Root || fi.Decl == nil || fi.Decl.Body == nil || fi.Decl.Recv == nil || !strings.Contains(fi.Key, "Iterator)") || strings.HasSuffix(fi.File, "_test.go") {
 			continue
@@ -916,10 +916,33 @@ func I14(rc *RC) {
 				}
 			}
 		}
+		// every path that changes the direction also rewinds: the exhausted flag, the offset
+		// and the coordinate all belong to the old direction (a path that writes the flag and
+		// leaves without Reset keeps an iterator that reports exhaustion at once, or walks from
+		// the wrong end)
+		if bad == "" {
+			for _, p := range paths {
+				if p.Exit == "panic" {
+					continue
+				}
+				set, reset := false, false
+				for _, st := range p.Steps {
+					if (st.Kind == "store" || st.Kind == "let") && st.Target == "$r.reverse" {
+						set = true
+					}
+					if strings.Contains(st.Head, "$r.Reset()") || (st.Kind == "defer" && strings.Contains(ir.Render([]*ir.Node{st}), "$r.Reset()")) {
+						reset = true
+					}
+				}
+				if set && !reset {
+					bad = fmt.Sprintf("on the path [%s] the direction flag is written and the method leaves without Reset(): exhaustion flag, offset and coordinate still belong to the old direction", strings.Join(p.Guards, " && "))
+				}
+			}
+		}
 		if bad != "" {
 			rc.S.Viol("I14", fi.Key, pos, bad)
 		} else {
-			rc.S.Ok("I14", fi.Key, pos, "the direction is written before the iterator is rewound")
+			rc.S.Ok("I14", fi.Key, pos, "the direction is written before the iterator is rewound, and every path that writes it rewinds")
 		}
 	}
 }
